@@ -1337,7 +1337,7 @@ def run(ctx):
             for case in CORPUS + CORPUS_R2 + CORPUS_FLAT:
                 check_case(ctx, case, tmp)
                 ctx.count("corpus")
-        n = 520 if ctx.quick() else 48000 // wcount
+        n = 520 if ctx.quick() else 24000 // wcount
         poison_process(ctx, tmp)
         for k in range(n):
             if k == n // 2:
